@@ -21,45 +21,52 @@ Proof.
   - unfold x_param. rewrite Hb. unfold s_ext_intro, s_ticks, pct. rewrite <- app_assoc. reflexivity.
 Qed.
 
-(* ---------- the quote-parity scan ---------- *)
+(* ---------- the _parseparam scanner ---------- *)
 Definition neutral (c : N) : Prop := c <> 34 /\ c <> 59 /\ c <> 92.
 
+(* outside a quoted string only DQUOTE and ';' matter *)
+Lemma scan_last x : Forall nq x -> forall cur, scan_params x false false cur = (rev cur ++ x, []).
+Proof.
+  induction 1 as [|c x [Hq Hs] _ IH]; intros cur.
+  - cbn. rewrite app_nil_r. reflexivity.
+  - cbn [scan_params]. apply N.eqb_neq in Hq, Hs. rewrite Hq, Hs.
+    rewrite IH. cbn [rev]. rewrite <- app_assoc. reflexivity.
+Qed.
+
+Lemma scan_semi x : Forall nq x -> forall cur rest f fs,
+  scan_params rest false false [] = (f, fs) ->
+  scan_params (x ++ 59 :: rest) false false cur = (rev cur ++ x, f :: fs).
+Proof.
+  induction 1 as [|c x [Hq Hs] _ IH]; intros cur rest f fs Hrest.
+  - cbn [app scan_params]. rewrite N.eqb_refl, Hrest, app_nil_r. reflexivity.
+  - cbn [app scan_params]. apply N.eqb_neq in Hq, Hs. rewrite Hq, Hs.
+    rewrite (IH _ _ _ _ Hrest). cbn [rev]. rewrite <- app_assoc. reflexivity.
+Qed.
+
 Lemma scan_neutral x : Forall neutral x -> forall r cur,
-  split_params (x ++ r) false false cur = split_params r false false (rev x ++ cur).
+  scan_params (x ++ r) false false cur = scan_params r false false (rev x ++ cur).
 Proof.
   induction 1 as [|c x (H1 & H2 & H3) _ IH]; intros r cur; [reflexivity|].
-  cbn [app split_params]. apply N.eqb_neq in H1, H2, H3. rewrite H1, H2, H3. cbn [andb].
+  cbn [app scan_params]. apply N.eqb_neq in H1, H2. rewrite H1, H2.
   rewrite IH. cbn [rev]. rewrite <- app_assoc. reflexivity.
 Qed.
 
-(* was the last character a backslash? *)
-Fixpoint pb_after (v : str) (pb : bool) : bool :=
-  match v with [] => pb | c :: v' => pb_after v' (c =? 92) end.
-
-Lemma scan_quoted v : forall pb cur r,
-  split_params (email_quote v ++ r) true pb cur = split_params r true (pb_after v pb) (rev (email_quote v) ++ cur).
+(* inside a quoted string an escaped text is passed over, whatever it contains: every
+   backslash of quote(v) escapes the character after it *)
+Lemma scan_quoted v : forall cur r,
+  scan_params (email_quote v ++ r) true false cur = scan_params r true false (rev (email_quote v) ++ cur).
 Proof.
-  induction v as [|c v IH]; intros pb cur r; [reflexivity|].
-  unfold email_quote in *. cbn [flat_map pb_after]. destruct (c =? 92) eqn:E92.
-  - apply N.eqb_eq in E92. subst c. cbn [orb app split_params].
-    change (92 =? 59) with false. change (92 =? 34) with false. change (92 =? 92) with true. cbn [andb].
+  induction v as [|c v IH]; intros cur r; [reflexivity|].
+  unfold email_quote in *. cbn [flat_map]. destruct (c =? 92) eqn:E92.
+  - apply N.eqb_eq in E92. subst c. cbn [orb app scan_params].
+    change (92 =? 92) with true. cbn iota.
     rewrite IH. cbn [rev]. rewrite <- !app_assoc. reflexivity.
   - destruct (c =? 34) eqn:E34.
-    + apply N.eqb_eq in E34. subst c. cbn [orb app split_params].
-      change (92 =? 59) with false. change (92 =? 34) with false. change (92 =? 92) with true.
-      change (34 =? 59) with false. change (34 =? 34) with true. change (34 =? 92) with false. cbn [andb negb].
+    + apply N.eqb_eq in E34. subst c. cbn [orb app scan_params].
+      change (92 =? 92) with true. cbn iota.
       rewrite IH. cbn [rev]. rewrite <- !app_assoc. reflexivity.
-    + cbn [orb app split_params]. rewrite E34, E92. cbn [andb negb]. rewrite andb_false_r.
+    + cbn [orb app scan_params]. rewrite E34, E92.
       rewrite IH. cbn [rev]. rewrite <- !app_assoc. reflexivity.
-Qed.
-
-Lemma pb_after_snoc v c : forall pb, pb_after (v ++ [c]) pb = (c =? 92).
-Proof. induction v as [|x v IH]; intros pb; [reflexivity|]. cbn [app pb_after]. apply IH. Qed.
-
-Lemma pb_after_last v : pb_after v false = last_is 92 v.
-Proof.
-  destruct v as [|x v] using rev_ind; [reflexivity|]. rewrite pb_after_snoc.
-  unfold last_is. rewrite rev_app_distr. cbn. rewrite N.eqb_sym. reflexivity.
 Qed.
 
 Lemma rev_wrap (x v cur : str) :
@@ -69,34 +76,31 @@ Proof.
   rewrite <- !app_assoc. reflexivity.
 Qed.
 
-(* a quoted parameter at the end of the value: always one field *)
+(* a quoted parameter at the end of the value *)
 Lemma scan_q_last x v cur : Forall neutral x ->
-  split_params (x ++ 34 :: email_quote v ++ [34]) false false cur = (rev cur ++ x ++ 34 :: email_quote v ++ [34], []).
+  scan_params (x ++ 34 :: email_quote v ++ [34]) false false cur = (rev cur ++ x ++ 34 :: email_quote v ++ [34], []).
 Proof.
   intros Hx. rewrite scan_neutral by exact Hx.
-  change (split_params (34 :: email_quote v ++ [34]) false false (rev x ++ cur))
-    with (split_params (email_quote v ++ [34]) true false (34 :: rev x ++ cur)).
-  rewrite scan_quoted. destruct (pb_after v false).
-  - change (split_params [34] true true (rev (email_quote v) ++ 34 :: rev x ++ cur))
-      with (rev (34 :: rev (email_quote v) ++ 34 :: rev x ++ cur), @nil str).
-    rewrite rev_wrap. reflexivity.
-  - change (split_params [34] true false (rev (email_quote v) ++ 34 :: rev x ++ cur))
-      with (rev (34 :: rev (email_quote v) ++ 34 :: rev x ++ cur), @nil str).
-    rewrite rev_wrap. reflexivity.
+  change (scan_params (34 :: email_quote v ++ [34]) false false (rev x ++ cur))
+    with (scan_params (email_quote v ++ [34]) true false (34 :: rev x ++ cur)).
+  rewrite scan_quoted.
+  change (scan_params [34] true false (rev (email_quote v) ++ 34 :: rev x ++ cur))
+    with (rev (34 :: rev (email_quote v) ++ 34 :: rev x ++ cur), @nil str).
+  rewrite rev_wrap. reflexivity.
 Qed.
 
-(* a quoted parameter followed by another one: needs the value not to end in a backslash (D3) *)
-Lemma scan_q_more x v cur rest f fs : Forall neutral x -> last_is 92 v = false ->
-  split_params rest false false [] = (f, fs) ->
-  split_params (x ++ 34 :: email_quote v ++ 34 :: 59 :: rest) false false cur
+(* a quoted parameter followed by another one: after fix 8596f7f for EVERY value *)
+Lemma scan_q_more x v cur rest f fs : Forall neutral x ->
+  scan_params rest false false [] = (f, fs) ->
+  scan_params (x ++ 34 :: email_quote v ++ 34 :: 59 :: rest) false false cur
   = (rev cur ++ x ++ 34 :: email_quote v ++ [34], f :: fs).
 Proof.
-  intros Hx Hl Hrest. rewrite scan_neutral by exact Hx.
-  change (split_params (34 :: email_quote v ++ 34 :: 59 :: rest) false false (rev x ++ cur))
-    with (split_params (email_quote v ++ 34 :: 59 :: rest) true false (34 :: rev x ++ cur)).
-  rewrite scan_quoted, pb_after_last, Hl.
-  change (split_params (34 :: 59 :: rest) true false (rev (email_quote v) ++ 34 :: rev x ++ cur))
-    with (let '(f, fs) := split_params rest false false [] in
+  intros Hx Hrest. rewrite scan_neutral by exact Hx.
+  change (scan_params (34 :: email_quote v ++ 34 :: 59 :: rest) false false (rev x ++ cur))
+    with (scan_params (email_quote v ++ 34 :: 59 :: rest) true false (34 :: rev x ++ cur)).
+  rewrite scan_quoted.
+  change (scan_params (34 :: 59 :: rest) true false (rev (email_quote v) ++ 34 :: rev x ++ cur))
+    with (let '(f, fs) := scan_params rest false false [] in
           (rev (34 :: rev (email_quote v) ++ 34 :: rev x ++ cur), f :: fs)).
   rewrite Hrest, rev_wrap. reflexivity.
 Qed.
@@ -119,29 +123,27 @@ Lemma fld_quoted_shape key v bs :
   fld Quoted key v bs = (32 :: key ++ [61]) ++ 34 :: email_quote v ++ [34].
 Proof. unfold fld, raw_key, raw_val. cbn [app]. rewrite <- app_assoc. reflexivity. Qed.
 
-Definition scan_ok (st : pstyle) (v : str) : Prop := match st with Quoted => last_is 92 v = false | Ext => True end.
-
 Lemma scan_fld_last st key v bs cur : Forall neutral key -> Forall (fun x => x < 256) bs ->
-  split_params (fld st key v bs) false false cur = (rev cur ++ fld st key v bs, []).
+  scan_params (fld st key v bs) false false cur = (rev cur ++ fld st key v bs, []).
 Proof.
   intros Hk Hb. destruct st.
   - rewrite fld_quoted_shape. apply scan_q_last. constructor; [repeat split; discriminate|].
     apply Forall_app. split; [exact Hk|repeat constructor; discriminate].
-  - apply split_params_last. apply fld_ext_nq; [|exact Hb].
+  - apply scan_last. apply fld_ext_nq; [|exact Hb].
     eapply Forall_impl; [|exact Hk]. intros c (H1 & H2 & _). split; assumption.
 Qed.
 
 Lemma scan_fld_more st key v bs cur rest f fs : Forall neutral key -> Forall (fun x => x < 256) bs ->
-  scan_ok st v -> split_params rest false false [] = (f, fs) ->
-  split_params (fld st key v bs ++ 59 :: rest) false false cur = (rev cur ++ fld st key v bs, f :: fs).
+  scan_params rest false false [] = (f, fs) ->
+  scan_params (fld st key v bs ++ 59 :: rest) false false cur = (rev cur ++ fld st key v bs, f :: fs).
 Proof.
-  intros Hk Hb Hs Hrest. destruct st.
+  intros Hk Hb Hrest. destruct st.
   - rewrite fld_quoted_shape. remember (32 :: key ++ [61]) as X eqn:EX.
     replace ((X ++ 34 :: email_quote v ++ [34]) ++ 59 :: rest) with (X ++ 34 :: email_quote v ++ 34 :: 59 :: rest)
       by (rewrite <- app_assoc; cbn [app]; rewrite <- app_assoc; reflexivity).
-    apply scan_q_more; [|exact Hs|exact Hrest]. subst X. constructor; [repeat split; discriminate|].
+    apply scan_q_more; [|exact Hrest]. subst X. constructor; [repeat split; discriminate|].
     apply Forall_app. split; [exact Hk|repeat constructor; discriminate].
-  - apply split_params_semi; [|exact Hrest]. apply fld_ext_nq; [|exact Hb].
+  - apply scan_semi; [|exact Hrest]. apply fld_ext_nq; [|exact Hb].
     eapply Forall_impl; [|exact Hk]. intros c (H1 & H2 & _). split; assumption.
 Qed.
 
